@@ -281,6 +281,9 @@ class Interp:
     def module_get(self, mod: ModuleInfo, name: str):
         if name in mod.cache:
             return mod.cache[name]
+        ov = self.reg.module_values.get(f"{mod.name}:{name}", _NOVAL)
+        if ov is not _NOVAL:
+            return ov
         if name in mod.defs:
             node = mod.defs[name]
             if isinstance(node, (ast.FunctionDef, ast.AsyncFunctionDef)):
@@ -821,7 +824,12 @@ class Interp:
                 if isinstance(n, ast.Call) and isinstance(n.func, ast.Name) and n.func.id == "old":
                     key = ast.dump(n.args[0])
                     if key not in olds:
-                        v = self.eval_spec(n.args[0], env)
+                        try:
+                            v = self.eval_spec(n.args[0], env)
+                        except (PyExc, OutOfSubset) as e:
+                            # old(<expr>) that is undefined in this pre-state (e.g. a field of None): only an error if a clause actually uses it
+                            olds[key] = _UndefinedOld(str(e))
+                            continue
                         if isinstance(v, list):
                             v = list(v)
                         elif isinstance(v, dict):
@@ -1494,6 +1502,8 @@ class Interp:
             return z3.Exists([j], z3.And(j >= 0, j < container.n, _zb(self.py_eq(e, item))))
         if isinstance(container, range) and not is_sym(item):
             return item in container
+        if isinstance(container, Opaque):
+            return truthy(self.opaque_method(container, "__contains__", [item], {}))
         if isinstance(container, VObj) and container.cls.find_method("__contains__"):
             return truthy(self.call(self.getattr(container, "__contains__"), [item], {}))
         raise OutOfSubset(f"`in` on {container!r}")
@@ -1880,7 +1890,10 @@ class Interp:
         key = ast.dump(n.args[0])
         if key not in self.old_cache:
             raise OutOfSubset("old() not captured")
-        return self.old_cache[key]
+        v = self.old_cache[key]
+        if isinstance(v, _UndefinedOld):
+            raise OutOfSubset(f"old() expression undefined in the pre-state: {v.why}")
+        return v
 
     def _quant(self, n, env, universal):
         lo = self.eval(n.args[0], env)
@@ -1950,6 +1963,14 @@ class Interp:
             z = z3_of(a) if not isinstance(a, (bool, SBool)) or s == "bool" else ops.as_int_z(a)
             zs.append(z)
         return wrap(f(*zs))
+
+
+_NOVAL = object()
+
+
+class _UndefinedOld:
+    def __init__(self, why):
+        self.why = why
 
 
 class _OpaqueMethod:
